@@ -111,7 +111,25 @@ class Hist:
         other_wt = [x for x in ADDR_KIND if x != self.wt]
         other_net = [n for n in NETS if n != self.net and NETS[n] != NETS[self.net]]
         nets_used = [self.net]
+        # structured prelude (every second history): explicit keys requested out of index order, then keys issued by the wallet
+        if self.hseed % 2 == 1:
+            hi, lo = rng.choice([(6, 3), (9, 2), (4, 1)])
+            chg = rng.choice([0, 1])
+            c = self.chain(self.wt, self.net, 0, chg)
+            try:
+                for idx in (hi, lo):
+                    k = w.key_for_path([chg, idx])
+                    self.record('at.%s.%d' % (c, idx), [k], 'key_for_path([%d, %d])' % (chg, idx))
+                for _ in range(2):
+                    k = w.new_key(change=chg)
+                    self.record('new.%s.1' % c, [k], 'new_key(change=%d)' % chg)
+                ks = w.get_keys(number_of_keys=3, change=chg)
+                self.record('get.%s.3' % c, ks, 'get_keys(3, change=%d)' % chg)
+            except WalletError as e:
+                self.problems.append(('refused', self.rep(real_op='prelude', error=str(e)[:100])))
         for step in range(self.nops):
+            if self.problems and any(p[0] != 'refused' for p in self.problems):
+                break
             w = self.w
             r = rng.random()
             acct = rng.choice(accounts)
@@ -152,7 +170,7 @@ class Hist:
                         self.descr.append('utxo_add on %s (key becomes used)' % k.path)
                         self.real.append([])
                 elif r < 0.88:
-                    idx = rng.choice([0, 1, 2, 3, 7, 12])
+                    idx = rng.choice([0, 1, 2, 3, 5, 7, 12])
                     k = w.key_for_path([change, idx], **kw)
                     self.record('at.%s.%d' % (c, idx), [k], 'key_for_path([%d, %d], %s)' % (change, idx, kw))
                 elif r < 0.94 and len(accounts) < 3:
